@@ -37,9 +37,10 @@ BindV(n, v) == [n |-> n, v |-> v]
 \* The standard environment.  ob / oba have the same structural type in two field
 \* orders; os is a list whose elements are laid out in their own (mixed) orders --
 \* all of it reachable from host data, all of it conforming.
-EnvIds == <<"E1", "E1a", "E1b", "E1c", "E1d">>
+EnvIds == <<"E1", "E1a", "E1b", "E1c", "E1d", "E0">>
 StdEnvIn(id) ==
-  CASE id \in {"E1", "E1a", "E1b", "E1c", "E1d"} -> <<
+  CASE id \in {"E1", "E1a", "E1b", "E1c", "E1d", "E0"} -> <<
+      BindV(N_eacute, VNum(NInt(5))),
       BindV(N_n, VNum(NInt(3))), BindV(N_p, VNum(Half(5))), BindV(N_z, VNum(Zero)), BindV(N_q, VNum(NInt(-1))),
       BindV(N_s, VStr(<<97, 98>>)), BindV(N_u, VStr(<<233, 26195>>)), BindV(N_w, VStr(<<>>)),
       BindV(N_b, VBool(TRUE)), BindV(N_c, VBool(FALSE)),
@@ -70,7 +71,7 @@ StdPre(id) == CASE id = "E1" -> BasePre
                 [] id = "E1b" -> BasePre \o <<"U_GLIST", "U_GPOLY">>
                 [] id = "E1c" -> BasePre \o <<"U_GNUM", "U_GLIST">>
                 [] id = "E1d" -> BasePre
-                [] OTHER -> <<>>
+                [] OTHER -> <<>>          \* E0: the standard values, built-in functions only
 StdPost(id) == CASE id = "E1c" -> <<"U_GPOLY">>
                  [] id = "E1d" -> <<"U_GLIST", "U_GPOLY", "U_GNUM">>
                  [] OTHER -> <<>>
